@@ -102,6 +102,9 @@ func Spec(prop, tier string) *core.CheckSpec {
 			bs = append(bs, core.Batch{Engine: "conf", Mode: "conf", Variant: v, DiffBase: "std", Runs: n(6000, 400000), Millis: ms(30000, 500000), Workers: 4})
 		}
 		bs = append(bs, core.Batch{Engine: "conf", Mode: "nort", Variant: "noquotas", DiffBase: "std", Runs: n(3000, 200000), Millis: ms(20000, 300000)})
+		bs = append(bs, core.Batch{Engine: "conf", Mode: "snap", Runs: n(400, 20000), Millis: ms(5000, 60000), Workers: 2},
+			core.Batch{Engine: "conf", Mode: "snap", Variant: "safepool", DiffBase: "std", Runs: n(400, 20000), Millis: ms(5000, 60000), Workers: 2,
+				Note: "open finding: values whose metatable changed after marking / whose finaliser compares its argument with the held value, finalised at Close by the two finaliser pools"})
 		return &core.CheckSpec{
 			Property: "C14", Level: "exploration",
 			Rule:    "the same tape (G-rich program + pool-stress templates: deep recursion, error unwinding through many frames, abandoned coroutines, closures outliving frames, re-entrant calls from Go; CPU-limit kill; hand-off schedule; WithRegSetMaxAge knob) is executed by the worker built with each tag set {noregpool, nocontpool, noregpool+nocontpool, safepool, noquotas (programs that do not use the runtime library)} and by the default build; the canonical event logs, results and error values must be identical run by run. non-trivial = a pool-stress template, a kill or a non-default scheduling decision was present",
